@@ -91,7 +91,11 @@ theorem applyInputPluginsO_eq {ι : Type} (fO : ι → Json → Outcome (Except 
   | false => rfl
   | true =>
     simp only [if_true]
-    cases applyOps (ps.map f) (.arr [q]) <;> rfl
+    cases applyOps (ps.map f) (.arr [q]) with
+    | error e => rfl
+    | ok s =>
+      simp only
+      cases (jsonArrayFlatten s : Except (PipeErr ε) (List Json)) <;> rfl
 
 end pipeline
 
@@ -443,6 +447,17 @@ theorem jsonArrayFlatten_ok {ε : Type} {s : Json} {qs : List Json}
     · simp [ha] at h
   | _ => simp at h
 
+/-- `with_request` on a packaged response: only a placeholder request is replaced -/
+theorem fixRequest_response (q r k : Json) :
+    fixRequest q (.obj [("request", r), ("error", k)])
+      = .obj [("request", if GridSearch.isNoRequest r then q else r), ("error", k)] := by
+  simp only [fixRequest]
+  split <;> rfl
+
+@[simp] theorem fixRequest_self (q k : Json) :
+    fixRequest q (.obj [("request", q), ("error", k)]) = .obj [("request", q), ("error", k)] := by
+  rw [fixRequest_response]; split <;> rfl
+
 /-- a query that passes input processing is an object -/
 theorem prepT_ok_isObject {plugins : List Plugin} {q : Json} {qs : List Json}
     (h : prepT plugins q = .ok qs) : q.isObject = true := by
@@ -650,6 +665,22 @@ theorem processT_objOp (p : Plugin) (hp : p.wellBehaved = true) : ObjOp (process
         simp [List.all_map, Function.comp_def, splitChild_isObject]
       · simp only [Except.ok.injEq] at h; subst h; exact Or.inl rfl
     | _ => simp [Json.isObject] at ho
+
+/-- the plugin stage leaves an array -/
+theorem applyOps_ok_arr : ∀ (ops : List (Json → Except PErr Json)) (items : List Json) (s : Json),
+    applyOps ops (.arr items) = .ok s → ∃ final, s = .arr final
+  | [], items, s, h => by
+    simp only [applyOps, Except.ok.injEq] at h
+    exact ⟨items, h.symm⟩
+  | op :: ops, items, s, h => by
+    simp only [applyOps, jsonArrayOp] at h
+    cases hm : mapOp op items with
+    | error e => simp [hm] at h
+    | ok rs =>
+      simp only [hm, flattenInPlace_arr] at h
+      exact applyOps_ok_arr ops _ s h
+
+theorem isNoRequest_noRequest : GridSearch.isNoRequest noRequest = true := rfl
 
 /-! ### worker interleavings -/
 
